@@ -17,6 +17,19 @@
  *        answer: crc=<client exit> csig= src=<server exit> ssig= san= c2slen=<n> c2scrc=<crc32>
  *                c2s=<hex | ~ when longer than the limit> s2c=<hex> err=<hex tail>
  *
+ *   multi JAIL CWD P Y UMASK K (DESTHEX CHUNKHEX[,CHUNKHEX...])*K
+ *        ONE child process (chroot, chdir, umask as above) runs K receivers as THREADS, each the real
+ *        pcp_server() on its own socket pair -- the way rpdcp (dsh.c _rcp_thread/_pcp_server) serves its
+ *        targets.  All connections are open at the same time; the feeder hands out the chunks round robin
+ *        (chunk j of connection 0, 1, .., K-1, then chunk j+1 ...) and waits after each chunk until that
+ *        receiver has consumed it and is waiting for input again, so the interleaving is deterministic.
+ *        Then the connections are shut down one after the other.
+ *        RACE (optional last token `A:B`): a forced interleaving of two _error() calls.  The first time
+ *        receiver A is inside _error() -- reply stream opened, about to format the record -- it is parked;
+ *        it continues as soon as receiver B has gone through an _error() of its own and is waiting for
+ *        input again (or when the input is exhausted).
+ *        answer: rc= sig= san= to=<0|1> parked=<0|1> r0=<hex replies of connection 0> r1=... err=<hex tail>
+ *
  * The chroot confines every experiment (hostile names such as ../../x) to the per-case jail directory,
  * and makes the jail the root of the model's file system.
  * Built per run from /repo's working tree with ASan/UBSan.
@@ -31,7 +44,23 @@
 #include "src/common/list.c"
 #include "src/common/fd.c"
 #include "src/pdsh/pcp_client.c"
+/* every read(2) of the receiver goes through harness_read: a receiver thread of the `multi` op marks
+ * itself idle while it waits for input, which lets the feeder interleave several connections
+ * deterministically */
+#include <unistd.h>
+static ssize_t harness_read(int fd, void *buf, size_t n);
+#define read(fd, buf, n) harness_read(fd, buf, n)
+/* two more scheduling points, both inside _error(): fdopen() marks "this thread has just opened its reply
+ * stream", and immediately before errf() evaluates its arguments the thread can be parked (op `multi`, RACE).
+ * Parking a thread between two statements is a legitimate schedule of the unchanged code. */
+static FILE *harness_fdopen(int fd, const char *mode);
+static void harness_sched_point(void);
+#define fdopen(fd, mode) harness_fdopen(fd, mode)
+#define errf(stream, fmt, ap) (harness_sched_point(), (errf)(stream, fmt, ap))
 #include "src/pdsh/pcp_server.c"
+#undef read
+#undef fdopen
+#undef errf
 #undef atime
 #undef mtime
 #undef SCREWUP
@@ -43,6 +72,8 @@
 #include <sys/socket.h>
 #include <stdint.h>
 #include <sys/resource.h>
+#include <sys/ioctl.h>
+#include <pthread.h>
 
 #define C2S_HEX_LIMIT 30000  /* longer client streams are reported by length + crc32 only */
 #define MAX_TIMEOUTS 3       /* after that many hanging cases the rest of the batch is answered `skipped` */
@@ -385,6 +416,238 @@ static void op_rt(char *rest)
     free(dest); free(host); free(a.log.p); free(b.log.p); free(errlog.p);
 }
 
+/* ---- several receivers in one process ------------------------------------------------------ */
+
+typedef struct {
+    int sfd, pfd;              /* server side / feeder side of the socket pair */
+    struct pcp_server svr;
+    int idle, finished;        /* accessed with __atomic builtins */
+    int in_error, nerrors, parked;
+    pthread_t th;
+    dyn_t log;                 /* replies */
+    char **chunks; size_t *clen; int nchunks;
+} conn_t;
+
+static __thread conn_t *self_conn = NULL;
+
+static ssize_t harness_read(int fd, void *buf, size_t n)
+{
+    conn_t *c = self_conn;
+    if (c && fd == c->svr.infd) {
+        struct pollfd pf = { fd, POLLIN, 0 };
+        __atomic_store_n(&c->idle, 1, __ATOMIC_SEQ_CST);
+        while (poll(&pf, 1, -1) < 0 && errno == EINTR)
+            ;
+        __atomic_store_n(&c->idle, 0, __ATOMIC_SEQ_CST);
+    }
+    return read(fd, buf, n);
+}
+
+static conn_t *race_a = NULL;       /* the receiver to park (NULL: none) */
+static int race_release = 0, race_done = 0;
+
+static FILE *harness_fdopen(int fd, const char *mode)
+{
+    if (self_conn) self_conn->in_error = 1;
+    return fdopen(fd, mode);
+}
+
+static void harness_sched_point(void)
+{
+    conn_t *c = self_conn;
+    int e = errno;
+    if (!c || !c->in_error) return;
+    c->in_error = 0;
+    if (c == race_a && !race_done) {
+        race_done = 1;
+        __atomic_store_n(&c->parked, 1, __ATOMIC_SEQ_CST);
+        while (!__atomic_load_n(&race_release, __ATOMIC_SEQ_CST))
+            usleep(50);
+        __atomic_store_n(&c->parked, 0, __ATOMIC_SEQ_CST);
+    }
+    __atomic_add_fetch(&c->nerrors, 1, __ATOMIC_SEQ_CST);
+    errno = e;
+}
+
+static void *conn_thread(void *arg)
+{
+    conn_t *c = arg;
+    self_conn = c;
+    pcp_server(&c->svr);
+    __atomic_store_n(&c->finished, 1, __ATOMIC_SEQ_CST);
+    return NULL;
+}
+
+static void drain_all(conn_t *cs, int k)
+{
+    unsigned char tmp[4096];
+    for (int i = 0; i < k; i++) {
+        ssize_t r;
+        while ((r = recv(cs[i].pfd, tmp, sizeof tmp, MSG_DONTWAIT)) > 0)
+            dyn_add(&cs[i].log, tmp, (size_t) r);
+    }
+}
+
+static long ms_since(const struct timespec *t0)
+{
+    struct timespec t1;
+    clock_gettime(CLOCK_MONOTONIC, &t1);
+    return (t1.tv_sec - t0->tv_sec) * 1000 + (t1.tv_nsec - t0->tv_nsec) / 1000000;
+}
+
+/* wait until receiver i has consumed everything and waits for input again (or has returned) */
+static int wait_quiet(conn_t *cs, int k, int i, int want_finished, const struct timespec *t0, long limit_ms)
+{
+    for (;;) {
+        drain_all(cs, k);
+        if (__atomic_load_n(&cs[i].finished, __ATOMIC_SEQ_CST))
+            return 0;
+        if (!want_finished && __atomic_load_n(&cs[i].parked, __ATOMIC_SEQ_CST))
+            return 0;
+        if (!want_finished && __atomic_load_n(&cs[i].idle, __ATOMIC_SEQ_CST)) {
+            int pending = 0;
+            if (ioctl(cs[i].sfd, FIONREAD, &pending) == 0 && pending == 0
+                && __atomic_load_n(&cs[i].idle, __ATOMIC_SEQ_CST))
+                return 0;
+        }
+        if (ms_since(t0) > limit_ms)
+            return -1;
+        usleep(100);
+    }
+}
+
+static void multi_child(const char *jail, const char *cwd, int p, int y, int um, conn_t *cs, int k, int resfd,
+                        int errfd, int ra, int rb)
+{
+    struct timespec t0;
+    int to = 0, maxch = 0, was_parked = 0, base_b = -1;
+    if (ra >= 0) race_a = &cs[ra];
+    dup2(errfd, 2);
+    if (chroot(jail) < 0 || chdir(cwd) < 0) {
+        dprintf(2, "HARNESS: chroot/chdir failed: %s\n", strerror(errno));
+        _exit(97);
+    }
+    umask(um);
+    clock_gettime(CLOCK_MONOTONIC, &t0);
+    for (int i = 0; i < k; i++) {
+        int sv[2];
+        if (socketpair(AF_UNIX, SOCK_STREAM, 0, sv) < 0) _exit(97);
+        cs[i].pfd = sv[0]; cs[i].sfd = sv[1];
+        cs[i].svr.infd = cs[i].svr.outfd = sv[1];
+        cs[i].svr.preserve = p;
+        cs[i].svr.target_is_dir = y;
+        if (cs[i].nchunks > maxch) maxch = cs[i].nchunks;
+    }
+    for (int i = 0; i < k; i++)
+        if (pthread_create(&cs[i].th, NULL, conn_thread, &cs[i]) != 0) _exit(97);
+    for (int i = 0; i < k && !to; i++)
+        if (wait_quiet(cs, k, i, 0, &t0, 8000) < 0) to = 1;
+    for (int j = 0; j < maxch && !to; j++)
+        for (int i = 0; i < k && !to; i++) {
+            if (j >= cs[i].nchunks || __atomic_load_n(&cs[i].finished, __ATOMIC_SEQ_CST))
+                continue;
+            size_t off = 0;
+            while (off < cs[i].clen[j]) {
+                ssize_t w = send(cs[i].pfd, cs[i].chunks[j] + off, cs[i].clen[j] - off, MSG_NOSIGNAL);
+                if (w <= 0) break;
+                off += (size_t) w;
+            }
+            if (wait_quiet(cs, k, i, 0, &t0, 8000) < 0) to = 1;
+            if (ra >= 0 && !race_release && __atomic_load_n(&cs[ra].parked, __ATOMIC_SEQ_CST)) {
+                was_parked = 1;
+                if (base_b < 0)
+                    base_b = __atomic_load_n(&cs[rb].nerrors, __ATOMIC_SEQ_CST);
+                else if (i == rb && __atomic_load_n(&cs[rb].nerrors, __ATOMIC_SEQ_CST) > base_b) {
+                    /* B has been through an _error() of its own since A was parked: A continues */
+                    __atomic_store_n(&race_release, 1, __ATOMIC_SEQ_CST);
+                    while (__atomic_load_n(&cs[ra].parked, __ATOMIC_SEQ_CST)) usleep(50);
+                    if (wait_quiet(cs, k, ra, 0, &t0, 8000) < 0) to = 1;
+                }
+            }
+        }
+    if (ra >= 0 && !race_release) {
+        __atomic_store_n(&race_release, 1, __ATOMIC_SEQ_CST);
+        while (__atomic_load_n(&cs[ra].parked, __ATOMIC_SEQ_CST)) usleep(50);
+        if (!to && wait_quiet(cs, k, ra, 0, &t0, 8000) < 0) to = 1;
+    }
+    for (int i = 0; i < k && !to; i++) {
+        shutdown(cs[i].pfd, SHUT_WR);
+        if (wait_quiet(cs, k, i, 1, &t0, 8000) < 0) to = 1;
+    }
+    drain_all(cs, k);
+    FILE *res = fdopen(resfd, "w");
+    fprintf(res, "to=%d parked=%d", to, was_parked);
+    for (int i = 0; i < k; i++) {
+        static const char hxd[] = "0123456789abcdef";
+        fprintf(res, " r%d=", i);
+        if (cs[i].log.n == 0) fputc('-', res);
+        for (size_t b = 0; b < cs[i].log.n; b++) { fputc(hxd[cs[i].log.p[b] >> 4], res); fputc(hxd[cs[i].log.p[b] & 15], res); }
+    }
+    fflush(res);
+    _exit(0);
+}
+
+static void op_multi(char *rest)
+{
+    char *jail = tok(&rest), *cwd = tok(&rest), *ps = tok(&rest), *ys = tok(&rest), *ums = tok(&rest),
+         *ks = tok(&rest);
+    if (!ks) { printf("bad-op\n"); return; }
+    if (ntimeouts >= MAX_TIMEOUTS) { printf("skipped rc=-1 sig=997 san=0 to=0 err=-\n"); return; }
+    int k = atoi(ks);
+    if (k < 1 || k > 8) { printf("bad-op\n"); return; }
+    conn_t *cs = calloc((size_t) k, sizeof *cs);
+    for (int i = 0; i < k; i++) {
+        char *dh = tok(&rest), *ch = tok(&rest);
+        size_t l;
+        if (!ch) { printf("bad-op\n"); return; }
+        cs[i].svr.outfile = (char *) unhex(dh, &l);
+        int n = 1;
+        for (char *q = ch; *q; q++) if (*q == ',') n++;
+        cs[i].chunks = calloc((size_t) n, sizeof(char *));
+        cs[i].clen = calloc((size_t) n, sizeof(size_t));
+        cs[i].nchunks = 0;
+        for (char *q = strtok(ch, ","); q; q = strtok(NULL, ","))
+            cs[i].chunks[cs[i].nchunks] = (char *) unhex(q, &cs[i].clen[cs[i].nchunks]), cs[i].nchunks++;
+    }
+    int ra = -1, rb = -1;
+    char *race = tok(&rest);
+    if (race && sscanf(race, "%d:%d", &ra, &rb) == 2) {
+        if (ra < 0 || rb < 0 || ra >= k || rb >= k || ra == rb) { printf("bad-op\n"); return; }
+    } else
+        ra = rb = -1;
+    int pres[2], perr[2];
+    if (pipe(pres) < 0 || pipe(perr) < 0) { printf("harness-error pipe\n"); return; }
+    fflush(stdout);
+    pid_t pid = fork();
+    if (pid == 0) {
+        close(pres[0]); close(perr[0]);
+        multi_child(jail, cwd, atoi(ps), atoi(ys), (int) strtol(ums, NULL, 8), cs, k, pres[1], perr[1], ra, rb);
+    }
+    close(pres[1]); close(perr[1]);
+    set_nb(pres[0]); set_nb(perr[0]);
+    /* both pipes are only read: two one-directional "relays" without a destination */
+    dir_t a = { pres[0], -1, { NULL, 0, 0 }, 0, 0, 0 }, b = { -1, -1, { NULL, 0, 0 }, 0, 1, 0 };
+    dyn_t errlog = { NULL, 0, 0 };
+    dyn_add(&errlog, "", 0);
+    dyn_add(&a.log, "", 0);
+    int to = pump(&a, &b, 0, 0, perr[0], &errlog, 40000);
+    int rc, sig;
+    if (to < 0) { kill(pid, SIGKILL); ntimeouts++; }
+    reap(pid, &rc, &sig);
+    if (to < 0) sig = 998;
+    close(pres[0]); close(perr[0]);
+    a.log.p[a.log.n] = 0;
+    if (strstr((char *) a.log.p, "to=1")) ntimeouts++;
+    printf("rc=%d sig=%d san=%d %s err=", rc, sig, looks_san(&errlog), a.log.n ? (char *) a.log.p : "to=0");
+    put_errtail(&errlog);
+    printf("\n");
+    for (int i = 0; i < k; i++) {
+        for (int j = 0; j < cs[i].nchunks; j++) free(cs[i].chunks[j]);
+        free(cs[i].chunks); free(cs[i].clen); free(cs[i].svr.outfile);
+    }
+    free(cs); free(a.log.p); free(errlog.p);
+}
+
 int main(int argc, char **argv)
 {
     char *line = NULL;
@@ -403,6 +666,7 @@ int main(int argc, char **argv)
         if (!op) { printf("bad-op\n"); continue; }
         if (!strcmp(op, "sink")) op_sink(rest);
         else if (!strcmp(op, "rt")) op_rt(rest);
+        else if (!strcmp(op, "multi")) op_multi(rest);
         else printf("bad-op\n");
         fflush(stdout);
     }
